@@ -262,20 +262,22 @@ def frame_check(ctx, wd, ops, mo, L, meta):
 
 
 def with_faults(ctx, L, ops, meta):
-    """second pass of a history: before some of its read calls the device starts refusing to read one or two blocks of the file
-    (numbers learnt from a first, fault-free run), and stops again after the call - the fault model `bad` of Model/FileIO.v;
-    only read calls run under a fault (the OFS fallback seek that a failed seek triggers is not in the model)"""
+    """second pass of a history: before some of its read and seek calls the device starts refusing to read one or two blocks of the file
+    (numbers learnt from a first, fault-free run), and stops again after the call - the fault model `bad` of Model/FileIO.v
+    (a failed extension-block seek on OFS falls back to the walk along the data blocks, adfFileSeekOFS_ = seek_ofs)"""
     rng = ctx.rng
     rc, out, err, wd = common.run_script(ctx, "\n".join(L) + "\n")
     per = alog_by_mark(os.path.join(wd, "alog"))
-    blocks = sorted({int(x) for ans in per.values() for a in ans for x in a.split(":")[1:] if x.lstrip("-").isdigit() and int(x) > 1})
+    # victims: the data and extension blocks of the file - not what the creating call (mark 0) allocated, the file header [and a cache block]:
+    # a flush re-reads the header block to refresh its hash-chain link, which is outside the model
+    blocks = sorted({int(x) for (mk, ans) in per.items() if mk != 0 for a in ans for x in a.split(":")[1:] if x.lstrip("-").isdigit() and int(x) > 1})
     if rc != 0 or not blocks:
         return L, ops, meta
     L2, k = [], 0
     shift = {}
     for i, l in enumerate(L, 1):
         op = next((o for o in ops if o["line"] == i), None)
-        faulty = op is not None and op["kind"] == "read" and rng.random() < 0.6
+        faulty = op is not None and ((op["kind"] == "read" and rng.random() < 0.6) or (op["kind"] == "seek" and rng.random() < 0.5))
         if faulty:
             victims = rng.sample(blocks, min(len(blocks), rng.choice([1, 1, 2, 6])))
             L2 += ["badblk %d" % b for b in victims]
@@ -331,7 +333,12 @@ def run_one(ctx, L, ops, meta):
                 ML += ["good %d" % b for b in o["bad"]]
                 ctx.bump("fileio_reads_under_fault")
         elif k == "seek":
+            if o.get("bad"):
+                ML += ["bad %d" % b for b in o["bad"]]
             ML.append("seek %d" % o["p"])
+            if o.get("bad"):
+                ML += ["good %d" % b for b in o["bad"]]
+                ctx.bump("fileio_seeks_under_fault")
         elif k == "trunc":
             ML.append("trunc %d %s" % (o["t"], " ".join(ans)))
         elif k == "flush":
